@@ -18,6 +18,7 @@ harness and rendered as a Gallina `case` term):
   [11, ctx, emax, raddr, cid?, source, nh?, attrs]   Table::insert + export, then Table::restale_llgr + export
   [13, ctx, emax, raddr, cid?, family, [change..], probe]   a history of changes through one ExportMap
   [14, ..as 9.., [accept_all, [rt8..]]]   process_nlri_change with a real RtcFilter (from_paths)
+  [15, [[local_pref, filtered, nexthop_invalid]..]]   the change stream of the real Table::restale_llgr for one destination
   [12, ..as 9.., policy]                  process_nlri_change with a real one-statement table::PolicyAssignment
                                           policy = [nh_action?, med_action?, statement disposition, default disposition, as_prepend?]
 with attr = [code, flags, kind(0 Val,1 Bin,2 Opaque), payload], ip = [0|1, bytes],
@@ -210,6 +211,15 @@ def case_coq(c):
         body = 'CProcessPol %s %d %s %s %s %s %s (Build_stmt %s %s %s) %s %s' % (
             c_ctx(c[1]), c[2], c_ip(c[3]), copt(c[4], c_num), c_change(c[5]), c_emap(c[6]), cbytes(c[7]),
             copt(pol[0], c_nha), copt(pol[1], c_med), dn[pol[2]], copt(pol[4] if len(pol) > 4 else [], c_pre), dn[pol[3]])
+    elif t == 15:
+        # the eligible paths in their order after marking: by LOCAL_PREF, highest first (all
+        # paths are the marked peer's, so staleness does not separate them)
+        specs = c[1]
+        elig = sorted([k for k, sp in enumerate(specs) if not sp[1] and not sp[2]], key=lambda k: -specs[k][0])
+        any_from = any(not sp[1] for sp in specs)
+        src = '(SrcPeer (Build_peer_src (IP4 [10;0;0;2]) 65002 65001 167772162 Ebgp true))'
+        paths = cl(['(Build_path %d %s None [])' % (k + 1, src) for k in elig])
+        body = 'CRestale %s %s (IP4 [10;0;0;2]) %s' % ('(Some %d)' % (elig[0] + 1) if elig else 'None', c_bool(any_from), paths)
     elif t == 14:
         r = c[8]
         body = 'CProcessRtc %s %d %s %s %s %s %s %s %s' % (
@@ -445,8 +455,12 @@ def source_fingerprint(repo):
         a = ev.find('async fn rx_update')
         b = ev.find('if let Some(s) = reach {', a)
         h.update(_strip_rust(ev[a:b]).encode())
-        a = ev.find('&& is_as_loop(')
-        h.update(_strip_rust(ev[a - 200:a + 400]).encode())
+        a = ev.find('if !is_as_loop(')
+        h.update(_strip_rust(ev[a - 400:a + 600]).encode())
+        tb = open(os.path.join(repo, 'table/src/lib.rs')).read()
+        a = tb.find('pub fn restale_llgr')
+        b = tb.find('pub fn drop_no_llgr', a)
+        h.update(_strip_rust(tb[a:b]).encode())
     except OSError:
         return 'unreadable'
     return h.hexdigest()
@@ -455,7 +469,7 @@ def source_fingerprint(repo):
 class Prop:
     pid = 'C09'
     props_file = 'Props/C09.v'
-    required_theorems = ['no_echo', 'no_ibgp_nonclient_to_nonclient', 'no_rs_boundary_crossing', 'loops_never_installed', 'ebgp_rewrite', 'ebgp_any_policy', 'ibgp_rewrite', 'ibgp_local_pref_any_policy', 'reflection_adds_originator_and_cluster', 'confed_rewrite', 'llgr_stale_marked', 'llgr_stale_readvertised', 'llgr_stale_readvertised_refuted', 'unknown_attr_rule', 'unknown_attr_rule_any_policy', 'as_path_prepend_spec', 'as_path_full_segment_rule', 'as_path_strip_confed_spec', 'as_path_count_spec', 'ebgp_policy_med', 'policy_actions_keep_decodable', 'no_panic_on_decodable', 'as_path_view_unambiguous', 'llgr_view_refreshed', 'llgr_refresh_addpath', 'llgr_refresh_best_only', 'propagation_exactly_where_allowed', 'kernel_routes_withheld_from_nonclient_ibgp', 'best_only_complete', 'history_view_allowed', 'process_change_r_lower', 'process_change_r_lift', 'policy_prepend_then_export', 'loop_free_installed', 'rtc_filter_is_a_policy_wrapper', 'export_map_tracks_view', 'export_map_tracks_view_history']
+    required_theorems = ['no_echo', 'no_ibgp_nonclient_to_nonclient', 'no_rs_boundary_crossing', 'loops_never_installed', 'ebgp_rewrite', 'ebgp_any_policy', 'ibgp_rewrite', 'ibgp_local_pref_any_policy', 'reflection_adds_originator_and_cluster', 'confed_rewrite', 'llgr_stale_marked', 'llgr_stale_readvertised', 'llgr_stale_readvertised_refuted', 'unknown_attr_rule', 'unknown_attr_rule_any_policy', 'as_path_prepend_spec', 'as_path_full_segment_rule', 'as_path_strip_confed_spec', 'as_path_count_spec', 'ebgp_policy_med', 'policy_actions_keep_decodable', 'no_panic_on_decodable', 'as_path_view_unambiguous', 'llgr_view_refreshed', 'llgr_refresh_addpath', 'llgr_refresh_best_only', 'llgr_stream_best_only', 'as_path_prepend_total', 'propagation_exactly_where_allowed', 'kernel_routes_withheld_from_nonclient_ibgp', 'best_only_complete', 'history_view_allowed', 'process_change_r_lower', 'process_change_r_lift', 'policy_prepend_then_export', 'loop_free_installed', 'rtc_filter_is_a_policy_wrapper', 'export_map_tracks_view', 'export_map_tracks_view_history']
     correspondence_name = ('Model/Export.v run_case vs daemon/src/event/export.rs + packet/src/bgp.rs AS_PATH edits '
                            '(harness/daemon/export_hx.rs)')
     rule = ('cases = one call of a real function each (AS_PATH edit, is_as_loop, export_attrs, pre_policy_defaults, '
@@ -469,8 +483,9 @@ class Prop:
         'attribute vectors are built in the harness with Attribute::new_with_value / new_with_bin / new_opaque, and, for '
         'recognised attributes with non-canonical flag bits (Partial, Extended Length, unused bits), by parsing a one-attribute '
         'UPDATE with the real PeerCodec::parse_message',
-        "run_select's `if is_as_loop {continue}` (event/mod.rs) is glue replicated in the harness: is_as_loop and "
-        'PeerSession::rx_update are the real functions, the Loc-RIB is read back through TableManager::collect_loc_rib_paths',
+        'the receive side runs the real PeerSession::rx_msg (is_as_loop guard, FSM, rx_update) on a session brought to '
+        'Established by feeding its FSM Connected / OPEN / KEEPALIVE; the Loc-RIB is read back through '
+        'TableManager::collect_loc_rib_paths; validate_message (C05) is not in the path',
         'export policy is an arbitrary function in the theorems (a Gallina parameter); against the implementation it is '
         'None or a one-statement table::PolicyAssignment with next-hop / MED / as-prepend actions and accept / reject '
         '(model: stmt_policy_r, which can panic like the code); conditions, the other actions and multi-statement chains '
@@ -479,7 +494,9 @@ class Prop:
         'RtcFilter built with from_paths from wildcard / exact-match RTC NLRIs (model: with_rtc, a wrapper around the policy)',
         'HashSet iteration order of the Add-Path withdrawals and the partition_point position of an injected LOCAL_PREF in a '
         'vector that is not partitioned by code are compared modulo order (the property does not constrain them)',
-        'the LLGR scenario uses a one-destination, one-path table; Table::restale_llgr itself is modelled only for that shape',
+        'the LLGR scenario runs the real Table::insert / Table::restale_llgr on a one-destination, one-path table; the '
+        'model of restale_llgr\'s change stream (restale_llgr_changes) takes the re-sorted eligible path list as an input '
+        '(sorting and eligibility are the Rib properties C02/C06) and is tied to the real table for that shape only',
     ]
     assumptions = [
         'decodable: attribute vectors are what the UPDATE decoder produces (opaque only for unrecognised codes, well-formed '
@@ -603,11 +620,12 @@ class Prop:
         for a in attrs:
             if a[2] != 2 and a[0] in (ORIGIN, AS_PATH, MED, LOCAL_PREF, COMMUNITY, ORIGINATOR_ID, CLUSTER_LIST,
                                       EXT_COMMUNITY, AIGP, LARGE_COMMUNITY) and rng.random() < 0.12:
-                if a[0] == AS_PATH and (a[2] != 1 or parse_path(a[3]) is None):
-                    continue
-                if a[0] in (COMMUNITY, CLUSTER_LIST) and len(a[3]) % 4:
-                    continue
-                if (a[0] == EXT_COMMUNITY and len(a[3]) % 8) or (a[0] == LARGE_COMMUNITY and len(a[3]) % 12):
+                if a[0] == AS_PATH and (a[2] != 1 or parse_path(a[3]) is None
+                                        or any(not sg[1] for sg in parse_path(a[3]))):
+                    continue        # the decoder refuses malformed paths and (5e6671b) zero-length segments
+                if a[0] in (COMMUNITY, CLUSTER_LIST) and (len(a[3]) % 4 or not a[3]):
+                    continue        # ... and (36a2dde) empty COMMUNITIES / CLUSTER_LIST
+                if (a[0] == EXT_COMMUNITY and (len(a[3]) % 8 or not a[3])) or (a[0] == LARGE_COMMUNITY and (len(a[3]) % 12 or not a[3])):
                     continue
                 if a[2] == 1 and len(a[3]) > 255:
                     a[1] = CANON[a[0]] | 0x10 | rng.choice([0, 0x20])
@@ -690,7 +708,7 @@ class Prop:
             for t in (1, 2, 3, 4):
                 a = [AS_PATH, 0x40, 1, enc_path([(t, [64512 + (i % 7) for i in range(n)]), (2, [65002])])]
                 cases += [[0, 2, LOCAL_AS, a], [0, 3, LOCAL_AS, a], [1, a]]
-        # --- the slice-index corner of the prepends (buf[1] on a one-byte buffer), every head byte
+        # --- the former slice-index corner of the prepends (a one-byte buffer; guarded since a62a64e), every head byte
         for b0 in (0, 1, 2, 3, 4, 5, 255):
             for ty in (2, 3):
                 cases.append([0, ty, LOCAL_AS, [AS_PATH, 0x40, 1, [b0]]])
@@ -777,6 +795,11 @@ class Prop:
             k = rng.random()
             rtc = [1 if k < 0.1 else 0, [list(rt) for rt in rng.sample(self.RTS, rng.choice([0, 1, 1, 2]))]]
             cases.append([14] + c9[1:] + [rtc])
+        # --- the change stream of the real Table::restale_llgr on multi-path destinations
+        for n in (1, 2, 3):
+            for flags in itertools.product(((0, 0), (1, 0), (0, 1)), repeat=n):
+                lps = rng.sample([50, 100, 150, 200, 250], n)
+                cases.append([15, [[lps[k], flags[k][0], flags[k][1]] for k in range(n)]])
         # --- histories through one ExportMap: announce / replace / re-rank / withdraw sequences over
         # two destinations and a small pool of paths, sources flipping to LLGR-stale in between
         for _ in range(150 * scale):
@@ -967,6 +990,8 @@ class Prop:
     # ---------------------------------------------------------------- Spec oracle
     def oracle(self, c, obs):
         t = c[0]
+        if obs == [-1] and t in (5, 6, 7, 8):
+            return 'panic in a function that has no panicking path (or the harness could not build the case)'
         if t == 0:
             a = c[3]
             segs = parse_path(a[3]) if a[2] != 0 else None
@@ -1042,6 +1067,19 @@ class Prop:
             return None
         if t in (9, 12, 14):
             return self.oracle_process(c, obs)
+        if t == 15:
+            # RFC 9494 4.3 needs every eligible path of the marked peer to be looked at again by
+            # the exporter: named as replaced once, and the best reported as changed
+            specs = c[1]
+            elig = sorted([k for k, sp in enumerate(specs) if not sp[1] and not sp[2]], key=lambda k: -specs[k][0])
+            if obs == [-1]:
+                return 'restale_llgr panicked'
+            named = [ch[2][0] for ch in obs if ch[2]]
+            if sorted(named) != sorted(k + 1 for k in elig):
+                return 'restale_llgr does not name every eligible path of the marked peer as replaced exactly once'
+            if elig and not any(ch[0] for ch in obs):
+                return 'restale_llgr does not report the marked best path as changed'
+            return None
         if t == 13:
             return self.oracle_history(c, obs)
         if t == 11:
@@ -1281,13 +1319,15 @@ class Prop:
             return (t, c[1][0], bool(c[3]), obs == [], self._shape(c[4]))
         if t == 11:
             return (t, c[1][0], c[5][5], c[2], bool(c[4]), len(obs[0]), len(obs[1])) if obs[0] else None
+        if t == 15:
+            return (t, json.dumps([sp[1:] for sp in c[1]]), len(obs)) if obs != [-1] else None
         if t == 13:
             return (t, c[1][0], min(c[2], 2), tuple((o[0], o[1], o[2]) for o in obs[0]), json.dumps(obs[1])) if obs[0] else None
         return None
 
     def classify(self, c, obs):
         names = ['prepend', 'strip_confed', 'is_as_loop', 'export_attrs', 'pre_policy_defaults', 'rr_reflect',
-                 'llgr_stale', 'inject_local_pref', 'suppress_predicates', 'process_nlri_change', 'rx_update', 'llgr_scenario', 'process_nlri_change_policy', 'history', 'process_nlri_change_rtc']
+                 'llgr_stale', 'inject_local_pref', 'suppress_predicates', 'process_nlri_change', 'rx_update', 'llgr_scenario', 'process_nlri_change_policy', 'history', 'process_nlri_change_rtc', 'restale_llgr_stream']
         tags = ['op_' + names[c[0]]]
         if obs == [-1]:
             tags.append('panic')
@@ -1301,7 +1341,7 @@ class Prop:
             if b is None: tags.append('br_prepend_no_binary')
             elif not b: tags.append('br_prepend_empty')
             elif b[0] != c[1]: tags.append('br_prepend_other_type_head')
-            elif len(b) < 2: tags.append('br_prepend_index_panic')
+            elif len(b) < 2: tags.append('br_prepend_one_byte')
             elif b[1] < 255: tags.append('br_prepend_extend')
             else: tags.append('br_prepend_full_segment')
         if t == 1 and c[1][2] != 0:
